@@ -36,10 +36,15 @@ impl<'tera> VirtualMachine<'tera> {
     /// include: appends to its output only (or fails leaving a prefix); the includer's state is read-only
     #[verifier::external_body]
     pub fn render_include(&self, name: &str, state: &State<'tera>, output: &mut VxWriter) -> (r: TeraResult<()>)
-        ensures old(output).bytes@.is_prefix_of(final(output).bytes@)
+        ensures old(output).bytes@.is_prefix_of(final(output).bytes@),
+            // whether and how rendering the included template fails: named, so that the arm's result can be tied to it
+            r is Err == include_fails(*self, name@), r is Err ==> r->Err_0 == include_error(*self, name@)
     { unimplemented!() }
+    /// the template named in reports about `chunk` (unit report_target)
     #[verifier::external_body]
-    pub fn report_target(&self, chunk: &Chunk) -> (&'tera str, &'tera str) { unimplemented!() }
+    pub fn report_target(&self, chunk: &Chunk) -> (r: (&'tera str, &'tera str))
+        ensures r.0@ == target_name(*self, *chunk)
+    { unimplemented!() }
     #[verifier::external_body]
     pub fn rendering_error(&self, msg: String, chunk: &Chunk, span: &Span) -> Error { unimplemented!() }
     #[verifier::external_body]
@@ -47,6 +52,9 @@ impl<'tera> VirtualMachine<'tera> {
     #[verifier::external_body]
     pub fn undefined_field_error(&self, parent: &Value, attr: &str, span: &Span, chunk: &Chunk) -> Error { unimplemented!() }
 }
+pub uninterp spec fn include_fails(vm: VirtualMachine, name: Seq<char>) -> bool;
+pub uninterp spec fn include_error(vm: VirtualMachine, name: Seq<char>) -> Error;
+pub uninterp spec fn target_name(vm: VirtualMachine, chunk: Chunk) -> Seq<char>;
 /// span presence for an erroring instruction is C07's undecided part: assumed, not proved
 #[verifier::external_body]
 pub fn vx_assume_some<T>(o: Option<T>) -> (r: T) ensures o is Some ==> r == o->Some_0, o is Some { unimplemented!() }
